@@ -17,12 +17,13 @@ ID = "C13"
 CASES = {"quick": 480, "thorough": 6000}
 FLOOR = {"quick": 420, "thorough": 5500}
 FLOOR_COUNTERS = {
-    "quick": {"relations_judged": 6000, "x_wider_cases": 50, "x_narrower_cases": 50, "lre_calls": 900, "grd_calls": 800, "overlapping_index_cases": 80, "planted_map_cases": 60, "reference_implementations_judged": 250, "large_offset_shift_relations": 100},
-    "thorough": {"relations_judged": 80000, "x_wider_cases": 600, "x_narrower_cases": 600, "lre_calls": 12000, "grd_calls": 10000, "overlapping_index_cases": 1000, "planted_map_cases": 800, "reference_implementations_judged": 3500, "large_offset_shift_relations": 1200},
+    "quick": {"relations_judged": 6000, "x_wider_cases": 50, "x_narrower_cases": 50, "lre_calls": 900, "grd_calls": 800, "overlapping_index_cases": 80, "planted_map_cases": 60, "reference_implementations_judged": 250, "large_offset_shift_relations": 100, "integer_typed_inputs": 150, "target_rotations_with_default_scoring": 150, "index_arrays_reused_on_other_data": 30},
+    "thorough": {"relations_judged": 80000, "x_wider_cases": 600, "x_narrower_cases": 600, "lre_calls": 12000, "grd_calls": 10000, "overlapping_index_cases": 1000, "planted_map_cases": 800, "reference_implementations_judged": 3500, "large_offset_shift_relations": 1200, "integer_typed_inputs": 2000, "target_rotations_with_default_scoring": 2000, "index_arrays_reused_on_other_data": 400},
 }
 RULE = (
     "case = X, Y with equal sample count (12-60) and feature counts 2-8 on each side (X wider / equal / narrower by "
-    "round-robin), index choice default | explicit disjoint | overlapping | identical, estimator default | Ridge2FoldCV(MSE) | "
+    "round-robin; float or integer-typed), index choice default | explicit disjoint | overlapping | identical | counted from the end "
+    "(the same index arrays re-used on longer data), estimator default | Ridge2FoldCV(MSE) | "
     "Ridge(alpha), scaler default | user, n_local_points 2..n_train; ~20 relations per case. non-trivial = X and Y of "
     "different width or explicit indices; distinct by data hash."
 )
@@ -44,7 +45,7 @@ def gen(rng, tier, index):
     X = gens.well_conditioned(rng, n, f, cond=float(10.0 ** rng.uniform(0, 3))) * np.sqrt(n) if n > f else rng.normal(size=(n, f))
     X = X + rng.normal(size=f) * float(gens.pick(rng, (0.0, 1.0, 5.0)))
     Y = np.tanh(X @ rng.normal(size=(f, p))) + 0.2 * rng.normal(size=(n, p)) + rng.normal(size=p)
-    idx = gens.pick(rng, ("default", "default", "disjoint", "overlap", "identical", "train_only", "test_only"))
+    idx = gens.pick(rng, ("default", "default", "disjoint", "overlap", "identical", "train_only", "test_only", "from_the_end"))
     perm = rng.permutation(n)
     tr = te = None
     if idx == "disjoint":
@@ -54,13 +55,24 @@ def gen(rng, tier, index):
         tr, te = np.sort(perm[: 2 * n // 3]), np.sort(perm[n // 3 :])
     elif idx == "identical":
         tr = te = np.sort(perm[: max(8, n // 2)])
+    elif idx == "from_the_end":  # both index sets counted from the end of the data, as plain integer ndarrays
+        c = int(rng.integers(n // 3, 2 * n // 3))
+        tr, te = np.sort(perm[:c]) - n, np.sort(perm[c:]) - n
     elif idx == "train_only":
         tr = np.sort(perm[: n // 2])
     elif idx == "test_only":
         te = np.sort(perm[: n // 2])
+    dt = [gens.pick(rng, ("float64", "float64", "float64", "int64", "int32")) for _ in range(2)]
+    if dt[0] != "float64":  # integer-typed data (counts, grid coordinates): still well conditioned
+        X = np.round(X * 20000).astype(dt[0])
+    if dt[1] != "float64":
+        Y = np.round(Y * 20000).astype(dt[1])
     return {
         "X": X,
         "Y": Y,
+        "dtypes": dt,
+        "extra_rows": int(rng.integers(1, 12)),
+        "rot_scoring": gens.pick(rng, ("neg_mean_squared_error", None)),
         "idx": idx,
         "train_idx": tr,
         "test_idx": te,
@@ -79,7 +91,7 @@ def gen(rng, tier, index):
     }
 
 
-def _est(kind, alpha):
+def _est(kind, alpha, scoring="neg_mean_squared_error"):
     from sklearn.linear_model import Ridge
 
     from skmatter.linear_model import Ridge2FoldCV
@@ -88,7 +100,7 @@ def _est(kind, alpha):
         return None
     if kind == "ridge":
         return Ridge(alpha=alpha, fit_intercept=False)
-    return Ridge2FoldCV(alphas=np.geomspace(1e-9, 0.9, 20), alpha_type="relative", regularization_method="cutoff", random_state=0, shuffle=True, scoring="neg_mean_squared_error")
+    return Ridge2FoldCV(alphas=np.geomspace(1e-9, 0.9, 20), alpha_type="relative", regularization_method="cutoff", random_state=0, shuffle=True, scoring=scoring)
 
 
 def _scaler(kind):
@@ -103,6 +115,10 @@ def run(case, j):
     X, Y = case["X"], case["Y"]
     n, f = X.shape
     p = Y.shape[1]
+    if case.get("dtypes", ["float64"] * 2) != ["float64", "float64"]:
+        j.note("integer_typed_inputs")
+        j.tag("dtype:integer")
+    idx_before = [None if a is None else np.array(a, copy=True) for a in (case["train_idx"], case["test_idx"])]
     j.tag(f"X{'wider' if f > p else ('narrower' if f < p else 'equal')}", f"idx:{case['idx']}", f"est:{case['est']}", f"scaler:{case['scaler']}")
     if f > p:
         j.note("x_wider_cases")
@@ -122,7 +138,8 @@ def run(case, j):
         return dict(ikw, estimator=_est(case["est"], case["alpha"]), scaler=_scaler(case["scaler"]))
 
     def kw_rot():  # rotation-invariant model selection
-        return dict(ikw, estimator=_est("ridge" if case["est"] == "ridge" else "r2f_mse", case["alpha"]), scaler=_scaler("default"))
+        # scoring=None is documented as the (negative) mean squared error
+        return dict(ikw, estimator=_est("ridge" if case["est"] == "ridge" else "r2f_mse", case["alpha"], case.get("rot_scoring", "neg_mean_squared_error")), scaler=_scaler("default"))
 
     # a shift by b perturbs the data by eps*|b| in absolute terms; an ill-posed fit (training folds with
     # fewer rows than features, cut-off regularisation down to 1e-9) amplifies that without bound, so the
@@ -180,6 +197,8 @@ def run(case, j):
         w0 = g(X, Y @ case["R"], **extra, **kw_rot())
         j.close(f"{nm} unchanged: target rotated (rotation-invariant model selection)", w0, v0, 1e-6 * max(1.0, abs(v0)))
         j.note("relations_judged")
+        if case["est"] != "ridge" and case.get("rot_scoring", 0) is None:
+            j.note("target_rotations_with_default_scoring")
     # ---- contained information
     tr_eff = case["train_idx"] if case["train_idx"] is not None else (np.setdiff1d(np.arange(n), case["test_idx"]) if case["test_idx"] is not None else None)
     Xt = X if tr_eff is None else X[tr_eff]
@@ -249,9 +268,23 @@ def run(case, j):
             j.note("lre_calls")
         j.note("reference_implementations_judged")
         j.note("relations_judged", 3)
+    # ---- the same index arrays used on a second data set: "the rows counted from the end" of longer data
+    if case["idx"] == "from_the_end":
+        k0 = case.get("extra_rows", 3)
+        X2 = np.concatenate([X[:k0][::-1] * 3 + 1, X])  # other rows in front: the requested rows are the same ones
+        Y2 = np.concatenate([Y[:k0][::-1] * 2 - 1, Y])
+        for nm, pw in (("GRE", M.pointwise_global_reconstruction_error), ("GRD", M.pointwise_global_reconstruction_distortion)):
+            a = np.asarray(j.lib(f"pointwise {nm}(X,Y) again", pw, X, Y, estimator=e(), **ikw))
+            b = np.asarray(j.lib(f"pointwise {nm} on longer data", pw, X2, Y2, estimator=e(), **ikw))
+            j.close(f"pointwise {nm}: indices counted from the end select the same rows of longer data (same index arrays re-used)", b, a, 1e-9 * max(1.0, float(np.abs(a).max())))
+            j.note("relations_judged")
+        j.note("index_arrays_reused_on_other_data")
+    for nm_, a0, a1 in zip(("train_idx", "test_idx"), idx_before, (case["train_idx"], case["test_idx"])):
+        if a0 is not None:
+            j.ok("the caller's index arrays are what they were", np.array_equal(a0, a1), {nm_: (a0[:6], np.asarray(a1)[:6])})
     # ---- the two input checkers
     t1, t2, sc, es = M.check_global_reconstruction_measures_input(X, Y, case["train_idx"], case["test_idx"], None, None)
-    j.ok("default inputs: indices in range, scaler and estimator supplied", len(t1) > 0 and len(t2) > 0 and max(t1.max(), t2.max()) < n and sc is not None and es is not None)
+    j.ok("default inputs: indices in range, scaler and estimator supplied", len(t1) > 0 and len(t2) > 0 and max(t1.max(), t2.max()) < n and min(t1.min(), t2.min()) >= -n and sc is not None and es is not None)
     if case["train_idx"] is None and case["test_idx"] is None:
         j.ok("default split: disjoint halves", len(np.intersect1d(t1, t2)) == 0 and abs(len(t1) - len(t2)) <= 1, (len(t1), len(t2)))
     t1b, t2b, _, _ = M.check_local_reconstruction_measures_input(X, Y, nloc, case["train_idx"], case["test_idx"], None, None)
